@@ -154,33 +154,43 @@ def rejectLoop (w n : Nat) (low range zone : Nat) : Nat → Stream → Draw
       if lo ≤ zone then some (wrappingAdd (M w n) low hi, rest)
       else rejectLoop w n low range zone fuel rest
 
+/-! Named sub-expressions of the Rust bodies (they occur twice each in `random.rs`). -/
+/-- `high.wrapping_sub(low).wrapping_add(ONE)` (`.to_bits()` for `BInt`) -/
+@[inline] def rangeOf (m low high : Nat) : Nat := wrappingAdd m (wrappingSub m high low) 1
+/-- `(<$u_large>::MAX - range + 1) % range` -/
+def intsToReject (dbg : Bool) (m range : Nat) : Outcome Nat := do
+  let t ← opSub false dbg m (m - 1) range
+  opRem (addDigit m t 1) range
+/-- the `zone` of `sample_single_inclusive`:
+    `if MAX.bits() <= 16 { MAX - ints_to_reject } else { (range << range.leading_zeros()).wrapping_sub(ONE) }` -/
+def singleZone (dbg : Bool) (W m range : Nat) : Outcome Nat :=
+  if bitLen W (m - 1) ≤ 16 then do
+    let r ← intsToReject dbg m range
+    opSub false dbg m (m - 1) r
+  else do
+    let sh ← opShl dbg W range (leadingZeros W range)
+    pure (wrappingSub m sh 1)
+
 /-- `UniformSampler::new_inclusive` -/
 def newInclusive (signed dbg : Bool) (w n : Nat) (low high : Nat) : Outcome UniformInt :=
   let m := M w n
   if !(le signed m low high) then .panic else
-  let range := wrappingAdd m (wrappingSub m high low) 1
-  let intsToReject : Outcome Nat :=
-    if range ≠ 0 then do
-      let t ← opSub false dbg m (m - 1) range
-      opRem (addDigit m t 1) range
-    else .ok 0
-  do
-    let z ← intsToReject
-    pure { low := low, range := range, z := z }
+  let range := rangeOf m low high
+  let z : Outcome Nat := if range ≠ 0 then intsToReject dbg m range else .ok 0
+  z.bind fun z => .ok { low := low, range := range, z := z }
 
 /-- `UniformSampler::new` -/
 def new (signed dbg : Bool) (w n : Nat) (low high : Nat) : Outcome UniformInt :=
   let m := M w n
-  if !(lt signed m low high) then .panic else do
-    let h ← opSub signed dbg m high 1
-    newInclusive signed dbg w n low h
+  if !(lt signed m low high) then .panic else
+  (opSub signed dbg m high 1).bind fun h => newInclusive signed dbg w n low h
 
 /-- `UniformSampler::sample` -/
 def sample (dbg : Bool) (w n : Nat) (u : UniformInt) (s : Stream) : Outcome Draw :=
   let m := M w n
-  if u.range ≠ 0 then do
-    let zone ← opSub false dbg m (m - 1) u.z
-    pure (rejectLoop w n u.low u.range zone (s.length + 1) s)
+  if u.range ≠ 0 then
+    (opSub false dbg m (m - 1) u.z).bind fun zone =>
+      .ok (rejectLoop w n u.low u.range zone (s.length + 1) s)
   else .ok (genVal w n s)
 
 /-- `UniformSampler::sample_single_inclusive` -/
@@ -188,38 +198,25 @@ def sampleSingleInclusive (signed dbg : Bool) (w n : Nat) (low high : Nat) (s : 
     Outcome Draw :=
   let m := M w n
   if !(le signed m low high) then .panic else
-  let range := wrappingAdd m (wrappingSub m high low) 1
+  let range := rangeOf m low high
   if range = 0 then .ok (genVal w n s) else
-  let zone : Outcome Nat :=
-    -- `<$u_large>::MAX.bits() <= 16`
-    if bitLen (w * n) (m - 1) ≤ 16 then do
-      let t ← opSub false dbg m (m - 1) range
-      let intsToReject ← opRem (addDigit m t 1) range
-      opSub false dbg m (m - 1) intsToReject
-    else do
-      let sh ← opShl dbg (w * n) range (leadingZeros (w * n) range)
-      pure (wrappingSub m sh 1)
-  do
-    let zone ← zone
-    pure (rejectLoop w n low range zone (s.length + 1) s)
+  (singleZone dbg (w * n) m range).bind fun zone =>
+    .ok (rejectLoop w n low range zone (s.length + 1) s)
 
 /-- `UniformSampler::sample_single` -/
 def sampleSingle (signed dbg : Bool) (w n : Nat) (low high : Nat) (s : Stream) : Outcome Draw :=
   let m := M w n
-  if !(lt signed m low high) then .panic else do
-    let h ← opSub signed dbg m high 1
-    sampleSingleInclusive signed dbg w n low h s
+  if !(lt signed m low high) then .panic else
+  (opSub signed dbg m high 1).bind fun h => sampleSingleInclusive signed dbg w n low h s
 
 /-- `Uniform::new(low, high).sample(rng)` -/
-def uniformNewSample (signed dbg : Bool) (w n : Nat) (low high : Nat) (s : Stream) : Outcome Draw := do
-  let u ← new signed dbg w n low high
-  sample dbg w n u s
+def uniformNewSample (signed dbg : Bool) (w n : Nat) (low high : Nat) (s : Stream) : Outcome Draw :=
+  (new signed dbg w n low high).bind fun u => sample dbg w n u s
 
 /-- `Uniform::new_inclusive(low, high).sample(rng)` -/
 def uniformNewInclusiveSample (signed dbg : Bool) (w n : Nat) (low high : Nat) (s : Stream) :
-    Outcome Draw := do
-  let u ← newInclusive signed dbg w n low high
-  sample dbg w n u s
+    Outcome Draw :=
+  (newInclusive signed dbg w n low high).bind fun u => sample dbg w n u s
 
 end Rand
 end Bnum
